@@ -41,7 +41,8 @@ META = {"C16": {
     "assumptions": ["the two methods write disjoint persistent variables and neither reads a persistent "
                     "variable the other writes; no step-ending statements in the executed variant"],
     "probes": ["temp_clash", "loop_counter_clash", "flag_clash", "id_clash", "predicate_custom",
-               "disagree_initial", "disagree_transition", "interleaved"],
+               "disagree_initial", "disagree_transition", "interleaved", "handwritten_ids",
+               "earlier_fusion_of_same_objects"],
 }}
 
 
@@ -50,6 +51,46 @@ def build_dag(sc, ap):
     for ph in sc.phases:
         phases[ph.name] = ExecutionPhase(ph.name, ph.next_phase, list(ap.builders[ph.name].statements))
     return DAGCode(phases, sc.initial)
+
+
+def snapshot(dag):
+    """Structural dump of a description (to show that fusion leaves its inputs alone)."""
+    out = []
+    for pn in sorted(dag.phases):
+        ph = dag.phases[pn]
+        for st in ph.statements:
+            fields = sorted((f, repr(getattr(st, f, None))) for f in type(st).fields if f != "depends_on")
+            out.append((pn, ph.next_phase, type(st).__name__, st.id, tuple(sorted(st.depends_on)), str(st),
+                        tuple(fields)))
+    return out
+
+
+ID_POOL = ["s", "s_0", "s_1", "s_0_0", "main_0", "main_0_0", "main_1", "main_1_0", "init_0", "init_0_0", "0", "0_0"]
+
+
+def relabel(tape, dag):
+    """Hand-written statement ids (the builder's numbering is only one possible id scheme): ids drawn
+    from a small pool in which one id is another id plus the suffix a unique-name generator appends."""
+    phases = {}
+    for pn in sorted(dag.phases):
+        ph = dag.phases[pn]
+        stmts = list(ph.statements)
+        if tape.chance(0.6, "idfamily"):
+            # one family: an id, and the ids a unique-name generator derives from it
+            # (pytools' generator counts a trailing _<n> upwards: main_0 -> main_1 -> ...)
+            base = [pn, pn, "s", "main", "0"][tape.draw(5, "idbase")]
+            fam = ["%s_%d" % (base, k) for k in range(max(3, len(stmts)))]
+            pool = [fam[i] for i in tape.perm(len(fam), "idpool")] + [x for x in ID_POOL if x not in fam]
+        else:
+            pool = [ID_POOL[i] for i in tape.perm(len(ID_POOL), "idpool")]
+        ids = {}
+        for k, st in enumerate(stmts):
+            ids[st.id] = pool[k] if k < len(pool) else "h%d" % k
+        new = [st.copy(id=ids[st.id], depends_on=frozenset(ids[d] for d in st.depends_on)) for st in stmts]
+        # "statements is a list of statement instances in no particular order"
+        new = [new[i] for i in tape.perm(len(new), "storage")]
+        phases[pn] = ExecutionPhase(ph.name, ph.next_phase, new)
+    return DAGCode(phases, dag.initial_phase)
 
 
 def names_of(stmts):
@@ -118,6 +159,16 @@ def run_c16(ctx):
     if "onlyB" in only:
         dagB = DAGCode(dict(dagB.phases, onlyB=only["onlyB"]), dagB.initial_phase)
 
+    with tape.span("relabel"):
+        if tape.chance(0.25, "relabelA"):
+            dagA = relabel(tape, dagA)
+            ctx.count("probe:handwritten_ids")
+        if tape.chance(0.35, "relabelB"):
+            dagB = relabel(tape, dagB)
+            ctx.count("probe:handwritten_ids")
+    for tag, dag in (("onlyA", dagA), ("onlyB", dagB)):
+        if tag in only:
+            only[tag] = dag.phases[tag]
     all_names = sorted(names_of([s for p in dagA.phases.values() for s in p.statements])
                        | names_of([s for p in dagB.phases.values() for s in p.statements]))
     pred = None
@@ -131,6 +182,24 @@ def run_c16(ctx):
         pred = lambda name: False                # noqa: E731
     ctx.decoded["predicate"] = "default" if pred is None else sorted(pred_set)
 
+    snapA, snapB = snapshot(dagA), snapshot(dagB)
+    with tape.span("earlier_fusion"):
+        # history: the same two descriptions may have been fused before, under another predicate
+        if variant == 0 and tape.chance(0.25, "earlier"):
+            ek = tape.draw(3, "earlier_pred")
+            try:
+                if ek == 0:
+                    fuse_two_dags(dagA, dagB)
+                elif ek == 1:
+                    fuse_two_dags(dagA, dagB, should_disambiguate_name=lambda name: False)
+                else:
+                    fuse_two_dags(dagA, dagB, should_disambiguate_name=lambda name: not name.startswith("<state>"))
+            except Exception as e:
+                tb = traceback.extract_tb(e.__traceback__)
+                where = [f.name for f in tb if "/dagrt/" in f.filename]
+                raise Violation("fuse-exception:" + type(e).__name__, "fuse_two_dags raised %r" % (e,),
+                                site=where[-1] if where else "")
+            ctx.count("probe:earlier_fusion_of_same_objects")
     try:
         if pred is None:
             fused = fuse_two_dags(dagA, dagB)
@@ -152,6 +221,12 @@ def run_c16(ctx):
                         site="initial" if variant == 1 else "transition")
     if fused.initial_phase != dagA.initial_phase:
         raise Violation("agreement-check", "fused initial phase %r" % fused.initial_phase, site="initial")
+    for tag, snap, dag in (("first", snapA, dagA), ("second", snapB, dagB)):
+        now = snapshot(dag)
+        if now != snap:
+            diff = [(a[3], a[5], b[5]) for a, b in zip(snap, now) if a != b][:3]
+            raise Violation("input-modified", "fuse_two_dags changed the %s method it was given (running that "
+                            "method alone is no longer what its author wrote): %r" % (tag, diff), site=tag)
 
     if pred is None:
         # (a caller's predicate may legitimately ask for shared flags; only the default is checked)
@@ -264,9 +339,14 @@ def run_c16(ctx):
         deps_idx = [sorted(posF[d] for d in s.depends_on) for s in F]
         wA = set(v for s in A for v in s.get_written_variables() if is_persistent(v))
         wB = set(v for s in B for v in s.get_written_variables() if is_persistent(v))
+        # (the statement lists may be stored in any order: solo runs follow the dependency edges)
+        posA = {s.id: i for i, s in enumerate(A)}
+        posB = {s.id: i for i, s in enumerate(B)}
+        topoA = random_extension(tape, [sorted(posA[d] for d in s.depends_on) for s in A], "earliest")
+        topoB = random_extension(tape, [sorted(posB[d] for d in s.depends_on) for s in B], "earliest")
         for si, st0 in enumerate(stores):
-            hA = exA.run(list(range(len(A))), st0, record=True)
-            hB = exB.run(list(range(len(B))), st0, record=True)
+            hA = exA.run(topoA, st0, record=True)
+            hB = exB.run(topoB, st0, record=True)
             for h, ex in ((hA, exA), (hB, exB)):
                 if h["term"] is not None:
                     raise Discard("ill-defined:solo-run-ends-early")
@@ -279,9 +359,9 @@ def run_c16(ctx):
                     if strat == "alternate":
                         order = alternate_extension(tape, deps_idx, len(A))
                     elif strat == "a_first":
-                        order = list(range(len(F)))
+                        order = topoA + [len(A) + i for i in topoB]
                     elif strat == "b_first":
-                        order = list(range(len(A), len(F))) + list(range(len(A)))
+                        order = [len(A) + i for i in topoB] + topoA
                     else:
                         order = random_extension(tape, deps_idx, strat if strat == "latest" else "random")
                 switches = sum(1 for x, y in zip(order, order[1:]) if (x < len(A)) != (y < len(A)))
